@@ -40,6 +40,14 @@ _PER_PROP = {p: {"quick": [{"ct": ct, "N": 1, "P": 1, "_pre": f"lay == {lay} and
                                for ct in ("h11", "h2", "h1-on-h2-pool", "socks-on-h2-pool") for n in (1, 2) for lay in (2, 3, 4)
                                for mode in ("cancel == 0", "cancel > 0 and d0 == 0 and c0 == 0")]}
               for p in ("C01", "C04", "C05", "C06", "C08", "C15")}
+# C08(d): a re-used keep-alive connection is in flight when its old idle deadline passes, and another
+# caller's pool time-out then runs the pool's clean-up pass (time 7): the request in flight must not fail
+_KA = {"N": 1, "P": 1, "slow": 4, "ka": 2, "pto_val": 7,
+       "_pre": "lay == 2 and beh == 0 and pto == 1 and cancel == 0 and d0 <= 20"}
+for _p in ("C08",):
+    _PER_PROP[_p] = dict(_PER_PROP[_p]) if _p in _PER_PROP else {"quick": [], "thorough": []}
+    _PER_PROP[_p]["quick"] = _PER_PROP[_p]["quick"] + [dict(_KA, ct="h11")]
+    _PER_PROP[_p]["thorough"] = _PER_PROP[_p]["thorough"] + [dict(_KA, ct=ct) for ct in ("h11", "h2", "forward")]
 # C01: two HTTP/2 connections in flight at once with the same stream ids (cross-talk *between*
 # connections), under every single schedule deviation
 _PER_PROP["C01"] = dict(_PER_PROP["C01"])
@@ -52,7 +60,7 @@ _PER_PROP["C01"]["quick"] = _PER_PROP["C01"]["quick"] + [
     quick=[{"ct": ct, "N": n, "P": 1, "_pre": f"lay == {lay} and beh <= 1 and {mode}"}
            for (ct, n) in (("h11", 1), ("h11", 2), ("h2", 1), ("h1-on-h2-pool", 1), ("socks-on-h2-pool", 1)) for lay in (2, 3)
            for mode in ("cancel == 0 and d0 <= 30", "cancel > 0 and d0 == 0 and c0 == 0")]
-    + [{"ct": ct, "N": 1, "P": 1, "slow": 1, "_pre": f"lay == {lay} and beh == 0 and pto == 0 and cancel == 0 and d0 <= 20"}
+    + [{"ct": ct, "N": 1, "P": 1, "slow": 3, "_pre": f"lay == {lay} and beh == 0 and pto == 0 and cancel == 0 and d0 <= 20"}
        for ct in ("h11", "h2", "h2prior", "h1-on-h2-pool") for lay in (2, 3)],
     per_prop=_PER_PROP,
     thorough=[{"ct": ct, "N": 1, "P": 2, "_timeout": 900,
@@ -62,7 +70,7 @@ _PER_PROP["C01"]["quick"] = _PER_PROP["C01"]["quick"] + [
        for ct in ("h11", "h2", "h1-on-h2-pool", "tunnel", "socks-on-h2-pool") for n in (1, 2) for lay in range(6)]
     + [{"ct": ct, "N": n, "P": 1, "_pre": f"lay == {lay} and cancel > 0 and d0 == 0 and c0 == 0"}
        for ct in ("h11", "h2", "h1-on-h2-pool", "tunnel", "socks-on-h2-pool") for n in (1, 2) for lay in range(6)]
-    + [{"ct": ct, "N": n, "P": 1, "slow": 1, "_pre": f"lay == {lay} and {mode}"}
+    + [{"ct": ct, "N": n, "P": 1, "slow": 3, "_pre": f"lay == {lay} and {mode}"}
        for ct in ("h11", "h2", "h2prior", "h1-on-h2-pool", "socks-on-h2-pool") for n in (1, 2) for lay in (2, 3, 4)
        for mode in ("cancel == 0", "cancel > 0 and d0 == 0 and c0 == 0")],
     example=dict(lay=2, d0=3, c0=1, d1=0, c1=0, beh=0, pto=0, cancel=0, who=0),
@@ -114,8 +122,12 @@ def _pool_conc(layout: tuple[int, ...], devs: list[tuple[int, int]], behaviours:
     if ct == "socks-on-h2-pool":
         real_ct = "sockstls"
         kw["http2"] = True  # same through a SOCKS5 proxy: the connecting connection is shared
-    slow = shard("slow", 0)
-    su = Setup(real_ct, True, max_connections=N, delay=3 if slow else None, **kw)
+    slow = shard("slow", 0)  # servers answer after that many time units
+    if shard("ka", None) is not None:
+        kw["keepalive_expiry"] = shard("ka", None)
+    if pool_to is not None:
+        pool_to = shard("pto_val", pool_to)
+    su = Setup(real_ct, True, max_connections=N, delay=slow or None, **kw)
     sig = f"conc:{ct}:N{N}" + (":slow" if slow else "")
     counter = StreamCounter(su, N, sig)
     callers = _mk(su, layout, pool_to, behaviours)
